@@ -68,7 +68,7 @@ func runQuorum(out *TraceWriter, full bool, lo, hi int) {
 // between heights), timestamp increments and pools.
 func runProposal(out *TraceWriter, seed int64, run int, heights int) {
 	t, rng := newTimedRun(out, seed, run, "proposal")
-	n0 := []int{1, 1, 4, 2}[rng.Intn(4)]
+	n0 := []int{1, 4, 4, 2}[rng.Intn(4)]
 	for i := 0; i < n0; i++ {
 		t.vals = append(t.vals, i)
 	}
@@ -141,8 +141,17 @@ func runProposal(out *TraceWriter, seed int64, run int, heights int) {
 			return
 		}
 	}
+	// at some heights the view-0 round fails (responses / commits of view 0 are lost): the proposal of the next view's
+	// primary must still be based on the previous BLOCK's timestamp, not on anything seen in the failed view
+	failV0 := map[uint32]bool{}
+	for h := t.h0; h <= t.target+1; h++ {
+		failV0[h] = n0 > 1 && rng.Intn(2) == 0
+	}
 	for _, n := range c.Nodes {
 		n.Broadcast = func(from *Node, p *Payload) {
+			if failV0[p.Ht] && p.V == 0 && (p.T == dbft.PrepareResponseType || p.T == dbft.CommitType || p.T == dbft.PreCommitType || p.T == dbft.RecoveryMessageType) {
+				return
+			}
 			for _, m := range c.Nodes {
 				if m.ID != from.ID {
 					t.q = append(t.q, delivery{to: m.ID, p: p.clone()})
@@ -158,7 +167,7 @@ func runProposal(out *TraceWriter, seed int64, run int, heights int) {
 			}
 		}
 	}
-	for step := 0; step < heights*6; step++ {
+	for step := 0; step < heights*16; step++ {
 		pump()
 		// everybody who accepted moves on
 		moved := false
